@@ -13,6 +13,7 @@ import Gengo.Driver.RawNamer
 import Gengo.Driver.Flatten
 import Gengo.Driver.Universe
 import Gengo.Driver.Comments
+import Gengo.Driver.BuildTag
 open Gengo Gengo.Proto
 
 /-- state of the stateful components (one history at a time per component) -/
@@ -23,6 +24,7 @@ structure DState where
   ib : Driver.ImportBoss.St := {}
   set : Driver.SetGen.St := {}
   uni : Driver.Universe.St := {}
+  bt : Driver.BuildTag.St := []
 
 def dispatch (s : DState) (f : List Str) : DState × Str :=
   match f with
@@ -35,6 +37,9 @@ def dispatch (s : DState) (f : List Str) : DState × Str :=
     else if c = str "asm" then (s, Driver.Assemble.handle rest)
     else if c = str "ord" then (s, Driver.Order.handle rest)
     else if c = str "nm" then (s, Driver.Namer.handle rest)
+    else if c = str "bt" then
+      let (t, o) := Driver.BuildTag.handle s.bt rest
+      ({ s with bt := t }, o)
     else if c = str "trk" then
       let (t, o) := Driver.Tracker.handle s.trk rest
       ({ s with trk := t }, o)
